@@ -1546,7 +1546,7 @@ impl Property for C17 {
         ]
     }
     fn cases(&self, tier: Tier) -> u64 {
-        tier.pick(40_000, 1_000_000)
+        tier.pick(400_000, 4_000_000)
     }
     fn strategy(&self, tier: Tier) -> BoxedStrategy<Case> {
         let hist = history_strategy(HistCfg {
